@@ -36,6 +36,9 @@ pub enum Mode {
     HandshakeLost,
     /// the path delivers until the link is registered again, then goes dark
     Flap,
+    /// handshake replies and keepalive echoes get through, stream data is never acknowledged
+    /// (the link stays connected but carries nothing useful)
+    DataHole,
 }
 
 #[derive(Clone, Copy, Debug, PartialEq)]
@@ -142,6 +145,10 @@ impl LoopModel {
             6 => {
                 events = vec![Ev::SecHeavy, Ev::SecIdle, Ev::Reload("127.0.0.2\n127.0.0.3\n"), Ev::Sec];
             }
+            // a link that stays connected but delivers nothing, under a heavy stream, with reloads that keep the list
+            7 => {
+                events = vec![Ev::SecHeavy, Ev::Fault(1, Mode::DataHole), Ev::Reload("127.0.0.2\n127.0.0.3\n"), Ev::Repair(1), Ev::SecIdle];
+            }
             // a control client that never reads its subscription
             _ => {
                 events.extend([Ev::FrozenSubscriber("stats"), Ev::FrozenSubscriber("priority.window"), Ev::PublishWindow, Ev::Fault(1, Mode::BlackHole), Ev::Repair(1)]);
@@ -150,9 +157,9 @@ impl LoopModel {
         let name = format!(
             "real loop links={n} timeout={timeout} mode={} alphabet={}",
             if classic { "classic" } else { "enhanced" },
-            ["streaming", "faults", "bind-faults", "long-outage", "reloads", "frozen-subscribers", "heavy-stream"][if level == 6 { 6 } else { level.min(5) as usize }]
+            ["streaming", "faults", "bind-faults", "long-outage", "reloads", "frozen-subscribers", "heavy-stream", "data-hole"][if level >= 6 { level.min(7) as usize } else { level.min(5) as usize }]
         );
-        Self { n, timeout, classic, events, name, single_thread: level == 4 || level == 6, lockstep: false, start_fault: false }
+        Self { n, timeout, classic, events, name, single_thread: level == 4 || level == 6 || level == 7, lockstep: false, start_fault: false }
     }
     pub fn with_start_fault(mut self) -> Self {
         self.start_fault = true;
@@ -204,6 +211,10 @@ struct LinkMon {
     /// CC target the previous pass published, and whether it has left its initial value before
     cc_prev: Option<u64>,
     cc_seeded: bool,
+    /// consecutive passes that reported the link weak for low share / no traffic
+    share_weak_run: u32,
+    /// not-weak passes still owed after a run of 15
+    probation_owed: u32,
 }
 
 struct Run<'a> {
@@ -282,6 +293,8 @@ fn fresh_link(now: u64) -> LinkMon {
         reg3_on_this_socket: false,
         cc_prev: None,
         cc_seeded: false,
+        share_weak_run: 0,
+        probation_owed: 0,
     }
 }
 
@@ -591,6 +604,40 @@ impl<'a> Run<'a> {
                 }
                 self.links[l].cc_prev = Some(target);
             }
+            // weak-link verdicts as the loop publishes them: at most 15 consecutive share-weak verdicts, then three
+            // not-weak ones
+            {
+                let share_weak = st.weak && (st.weak_reason == "low_share" || st.weak_reason == "no_traffic");
+                if std::env::var("VERIF_TRACE").is_ok() && l == 1 {
+                    eprintln!("TRACE weak link {l} +{now}: weak {} reason {} share {} thr {} run {}", st.weak, st.weak_reason, st.weak_share_permille, st.weak_threshold_permille, self.links[l].share_weak_run);
+                }
+                let k = &mut self.links[l];
+                if k.probation_owed > 0 {
+                    if st.weak && st.weak_reason != "bypassed" {
+                        if share_weak {
+                            return Err(Fail::new(
+                                "real:no-probation-after-15-share-weak-verdicts",
+                                format!("link {l} at +{now} ms: reported weak ({}) although {} not-weak verdicts are still owed after 15 consecutive share-weak ones", st.weak_reason, k.probation_owed),
+                            ));
+                        }
+                    }
+                    k.probation_owed -= 1;
+                    k.share_weak_run = 0;
+                } else if share_weak {
+                    k.share_weak_run += 1;
+                    if k.share_weak_run > 15 {
+                        return Err(Fail::new(
+                            "real:no-probation-after-15-share-weak-verdicts",
+                            format!("link {l} at +{now} ms: {} consecutive passes reported it weak for {} (at most 15, then three not-weak verdicts)", k.share_weak_run, st.weak_reason),
+                        ));
+                    }
+                    if k.share_weak_run == 15 {
+                        k.probation_owed = 3;
+                    }
+                } else {
+                    k.share_weak_run = 0;
+                }
+            }
             // keepalive cadence
             let live = st.connected && !st.timed_out;
             let got_ka = o.wire.iter().any(|(x, b)| *x == l && pkt_type(b) == Some(0x9000));
@@ -821,7 +868,7 @@ impl<'a> Run<'a> {
         }
         let mut top = 0;
         for l in 0..n {
-            if self.links[l].mode == Mode::BlackHole || !self.links[l].rec_known || !self.links[l].present {
+            if matches!(self.links[l].mode, Mode::BlackHole | Mode::DataHole) || !self.links[l].rec_known || !self.links[l].present {
                 continue;
             }
             for q in per_link[l].clone() {
@@ -833,7 +880,7 @@ impl<'a> Run<'a> {
         }
         self.acked_up_to = self.next_seq;
         if top > 0 {
-            if let Some(l) = (0..n).find(|l| self.links[*l].present && self.links[*l].mode != Mode::BlackHole && self.links[*l].rec_known) {
+            if let Some(l) = (0..n).find(|l| self.links[*l].present && !matches!(self.links[*l].mode, Mode::BlackHole | Mode::DataHole) && self.links[*l].rec_known) {
                 let mut p = vec![0u8; 44];
                 p[0] = 0x80;
                 p[1] = 0x02;
@@ -1407,6 +1454,7 @@ pub fn keys_of(prop: &str) -> &'static [&'static str] {
         "C09" => &["real:receiver-datagram-not-relayed", "real:client-received-unexpected-datagram"],
         "C14" => &["real:keepalive", "real:housekeeping-pass-stalled"],
         "C16" => &["real:cc-target"],
+        "C17" => &["real:no-probation"],
         "C19" => &["real:reload", "real:refused-reload", "real:datagram-from-unknown-source"],
         "C20" => &["real:housekeeping-pass-stalled"],
         _ => &[],
@@ -1469,6 +1517,25 @@ pub fn plans_of(prop: &str, quick: bool) -> Vec<(LoopModel, RealPlan)> {
         "C16" => {
             v.push((LoopModel::new(2, 5000, false, 6), RealPlan::Dev { k: if quick { 1 } else { 2 }, depth: if quick { 12 } else { 16 }, default: 0 }));
         }
+        "C17" => {
+            // link 1 turns into a data hole under a heavy stream; a reload that keeps the list arrives at every
+            // point of its share-weak run (and once not at all)
+            let m = LoopModel::new(2, 5000, false, 7);
+            let (heavy, hole, reload) = (m.index_of(Ev::SecHeavy), m.index_of(Ev::Fault(1, Mode::DataHole)), m.index_of(Ev::Reload("127.0.0.2\n127.0.0.3\n")));
+            let mut paths = Vec::new();
+            let positions: Vec<usize> = if quick { vec![usize::MAX, 15, 20, 25] } else { std::iter::once(usize::MAX).chain(10..32).collect() };
+            for at in positions {
+                let mut p = vec![heavy, heavy, heavy, hole];
+                for k in 0..42 {
+                    if k == at {
+                        p.push(reload);
+                    }
+                    p.push(heavy);
+                }
+                paths.push(p);
+            }
+            v.push((m, RealPlan::Explicit { name: "data-hole-with-a-reload".into(), paths }));
+        }
         "C20" => {
             v.push((LoopModel::new(2, 5000, false, 5), RealPlan::Full { depth: if quick { 3 } else { 4 } }));
             v.push((LoopModel::new(2, 5000, false, 5), RealPlan::Dev { k: 2, depth: if quick { 8 } else { 16 }, default: 0 }));
@@ -1511,6 +1578,7 @@ pub fn run_for(rep: &mut Report, prop: &str, quick: bool) {
         "C09" => &[("receiver datagrams relayed", total.relayed)],
         "C14" => &[("keepalives", total.keepalives)],
         "C16" => &[("client datagrams on the wire", total.forwarded), ("reloads applied", total.reloads_applied)],
+        "C17" => &[("reloads applied", total.reloads_applied), ("client datagrams on the wire", total.forwarded)],
         "C19" => &[("reloads applied", total.reloads_applied), ("reloads refused", total.reloads_refused)],
         "C20" => &[("frozen subscribers", total.frozen_subscribers), ("keepalives", total.keepalives)],
         _ => &[],
